@@ -28,7 +28,8 @@ pub enum Sub {
     /// pipe consumed to its end, 2 an earlier pipe and then a panic hook installed by the
     /// application, 3 an earlier pipe and then the crate's own train_bpe (which installs a
     /// print-only hook), 4 train_bpe only
-    Panic { t: usize, n: usize, j: usize, #[serde(default)] delay_ms: u64, #[serde(default)] history: u8 },
+    /// `buffered`: the failing pipe is wrapped as `pipe(..).buffered(k)`, the way the loaders compose them
+    Panic { t: usize, n: usize, j: usize, #[serde(default)] delay_ms: u64, #[serde(default)] history: u8, #[serde(default)] buffered: Option<usize> },
 }
 
 #[derive(Debug, Clone, Serialize, Deserialize)]
@@ -289,21 +290,31 @@ pub fn child_panic_pipe(args: &[String]) -> i32 {
         }
         x
     });
+    let buffered: Option<usize> = args.get(5).and_then(|s| s.parse().ok());
     // keep the hook that Pipe::new installs
     let pipe = (0..n).pipe(f, t as u8);
     let mut c = 0;
-    for _ in pipe {
-        c += 1;
+    match buffered {
+        Some(k) => {
+            for _ in pipe.buffered(k) {
+                c += 1;
+            }
+        }
+        None => {
+            for _ in pipe {
+                c += 1;
+            }
+        }
     }
     println!("consumed {c}");
     0
 }
 
-fn panic_child(t: usize, n: usize, j: usize, delay_ms: u64, history: u8) -> Result<(), String> {
+fn panic_child(t: usize, n: usize, j: usize, delay_ms: u64, history: u8, buffered: Option<usize>) -> Result<(), String> {
     let exe = std::env::current_exe().map_err(|e| e.to_string())?;
     for attempt in 0..2 {
         let mut child = Command::new(&exe)
-            .args(["child", "panic-pipe", &t.to_string(), &n.to_string(), &j.to_string(), &delay_ms.to_string(), &history.to_string()])
+            .args(["child", "panic-pipe", &t.to_string(), &n.to_string(), &j.to_string(), &delay_ms.to_string(), &history.to_string(), &buffered.map(|k| k.to_string()).unwrap_or_else(|| "-".into())])
             .stdin(Stdio::null())
             .stdout(Stdio::null())
             .stderr(Stdio::null())
@@ -321,14 +332,14 @@ fn panic_child(t: usize, n: usize, j: usize, delay_ms: u64, history: u8) -> Resu
         }
         match status {
             Some(st) if st.success() => {
-                return Err(format!("worker function panicked at item {j} (T={t}, n={n}, {delay_ms} ms into the item, history {history}) but the process completed normally with exit status 0: the failure was swallowed and the consumer saw a truncated stream"));
+                return Err(format!("worker function panicked at item {j} (T={t}, n={n}, {delay_ms} ms into the item, history {history}, buffered {buffered:?}) but the process completed normally with exit status 0: the failure was swallowed and the consumer saw a truncated stream"));
             }
             Some(_) => return Ok(()),
             None => {
                 let _ = child.kill();
                 let _ = child.wait();
                 if attempt == 1 {
-                    return Err(format!("worker function panicked at item {j} (T={t}, n={n}, history {history}) but the process was still alive after 30 s (twice): the consumer is blocked forever"));
+                    return Err(format!("worker function panicked at item {j} (T={t}, n={n}, history {history}, buffered {buffered:?}) but the process was still alive after 30 s (twice): the consumer is blocked forever"));
                 }
             }
         }
@@ -339,10 +350,10 @@ fn panic_child(t: usize, n: usize, j: usize, delay_ms: u64, history: u8) -> Resu
 impl Prop for C09 {
     type Case = Case;
     const ID: &'static str = "C09";
-    const RULE: &'static str = "(a) controlled schedules (C05 controller): T in 1..=4, consumer takes k in 0..=20 items of an upstream of k, k+1, 50 or 10^6 items, then only workers are scheduled until none can move (lookahead = pulled - consumed <= 4T+4), then the pipe is dropped and the workers are run to quiescence (all reach their exit point, still <= 4T+4 pulled); (b) the same with real threads for Pipe (T in 0..=4, chaos controller) and Buffered (buffer 0..=4, bound 2*buffer+4) with an upstream iterator that polices pulled - asked and pulls after the drop itself and whose Drop signals thread exit, optionally slow (0.1 / 1 ms per item) with a generated consumer idle time before the drop (0 / 50 us / 3 ms), so that the drop also lands while a background thread is fetching; (c) child processes in which the worker function panics at item j, optionally after a history in the same process (an earlier pipe run to its end, a panic hook installed by the application, the crate's own train_bpe, which installs a print-only hook): the child must terminate with a non-zero status. Non-trivial (a): at the drop >= 1 item is in the channel and >= 1 worker is between ticket and send. Distinct = distinct serialised case.";
+    const RULE: &'static str = "(a) controlled schedules (C05 controller): T in 1..=4, consumer takes k in 0..=20 items of an upstream of k, k+1, 50 or 10^6 items, then only workers are scheduled until none can move (lookahead = pulled - consumed <= 4T+4), then the pipe is dropped and the workers are run to quiescence (all reach their exit point, still <= 4T+4 pulled); (b) the same with real threads for Pipe (T in 0..=4, chaos controller) and Buffered (buffer 0..=4, bound 2*buffer+4) with an upstream iterator that polices pulled - asked and pulls after the drop itself and whose Drop signals thread exit, optionally slow (0.1 / 1 ms per item) with a generated consumer idle time before the drop (0 / 50 us / 3 ms), so that the drop also lands while a background thread is fetching; (c) child processes in which the worker function panics at item j, optionally after a history in the same process (an earlier pipe run to its end, a panic hook installed by the application, the crate's own train_bpe, which installs a print-only hook) and optionally wrapped as pipe(..).buffered(k) like the loaders do: the child must terminate with a non-zero status. Non-trivial (a): at the drop >= 1 item is in the channel and >= 1 worker is between ticket and send. Distinct = distinct serialised case.";
     const CLAIMS_TERMINATION: bool = true;
     const HANG_SECS: u64 = 45;
-    const ESSENTIAL: &'static [&'static str] = &["controlled", "real_pipe", "real_buffered", "panic_child", "panic_slow_near_end", "panic_after_foreign_hook", "unbounded_upstream", "drop_at_0", "drop_with_full_channel", "drop_during_fetch"];
+    const ESSENTIAL: &'static [&'static str] = &["controlled", "real_pipe", "real_buffered", "panic_child", "panic_slow_near_end", "panic_after_foreign_hook", "panic_in_pipe_then_buffered", "unbounded_upstream", "drop_at_0", "drop_with_full_channel", "drop_during_fetch"];
 
     fn budget(tier: Tier) -> Budget {
         match tier {
@@ -363,7 +374,7 @@ impl Prop for C09 {
         ];
         let real_pipe = (prop_oneof![10 => 0usize..=4, 1 => 5usize..=16], prop_oneof![10 => 0usize..=20, 1 => 21usize..=200], any::<u64>(), speed()).prop_flat_map(move |(t, k, chaos, (slow_us, idle_us))| up(k).prop_map(move |upstream| Sub::RealPipe { t, k, upstream, chaos, slow_us, idle_us }));
         let real_buf = (prop_oneof![10 => 0usize..=4, 1 => 5usize..=64], prop_oneof![10 => 0usize..=20, 1 => 21usize..=200], speed()).prop_flat_map(move |(buffer, k, (slow_us, idle_us))| up(k).prop_map(move |upstream| Sub::RealBuffered { buffer, k, upstream, slow_us, idle_us }));
-        let panic = (prop_oneof![10 => 1usize..=4, 1 => 5usize..=8], prop_oneof![10 => 1usize..=12, 1 => 13usize..=60], prop_oneof![Just(0u64), Just(5u64), Just(40u64)], prop_oneof![3 => Just(0u8), 4 => 1u8..=4]).prop_flat_map(|(t, n, delay_ms, history)| (0..n).prop_map(move |j| Sub::Panic { t, n, j, delay_ms, history }));
+        let panic = (prop_oneof![10 => 1usize..=4, 1 => 5usize..=8], prop_oneof![10 => 1usize..=12, 1 => 13usize..=60], prop_oneof![Just(0u64), Just(5u64), Just(40u64)], prop_oneof![3 => Just(0u8), 4 => 1u8..=4], prop_oneof![2 => Just(None), 1 => (0usize..=4).prop_map(Some), 1 => Just(Some(16usize))]).prop_flat_map(|(t, n, delay_ms, history, buffered)| (0..n).prop_map(move |j| Sub::Panic { t, n, j, delay_ms, history, buffered }));
         prop_oneof![20 => controlled, 5 => real_pipe, 5 => real_buf, 2 => panic]
             .prop_map(|sub| Case { sub })
             .boxed()
@@ -422,12 +433,13 @@ impl Prop for C09 {
                     Err(e) => out.fail(format!("Buffered({buffer}), drop after {k} of {upstream}: {e}")),
                 }
             }
-            Sub::Panic { t, n, j, delay_ms, history } => {
+            Sub::Panic { t, n, j, delay_ms, history, buffered } => {
                 out.label("panic_child");
+                out.label_if(buffered.is_some(), "panic_in_pipe_then_buffered");
                 out.label_if(*history >= 2, "panic_after_foreign_hook");
                 out.nontrivial = *t >= 2 && *j + 1 < *n;
                 out.label_if(*delay_ms > 0 && *j + *t > *n, "panic_slow_near_end");
-                if let Err(e) = panic_child(*t, *n, *j, *delay_ms, *history) {
+                if let Err(e) = panic_child(*t, *n, *j, *delay_ms, *history, *buffered) {
                     out.fail(e);
                 }
             }
